@@ -82,7 +82,71 @@ def register(reg):
              'list(self.test_record.outcome_details)')
 
   # ---------------------------------------------------------------- abort
+  register_executor(reg)
+
   c = reg.contract(TS, 'TestState.abort', props=['C01', 'C04'])
   c.ensures('aborted', 'self.test_record.outcome is test_record.Outcome.ABORTED and %s' % fin)
   c.modifies('self._status', 'self.test_record.outcome', 'self.test_record.start_time_millis', 'self.test_record.end_time_millis',
              'list(self.test_record.outcome_details)')
+
+
+def register_executor(reg):
+  ER = '_ExecutorReturn'
+  live = 'self.test_state is not None and self._phase_exec is not None and self._phase_exec.test_state is self.test_state'
+  term = 'self._last_outcome is not None and self._last_outcome.is_terminal'
+  keeps_first = 'implies(old(self._last_outcome) is not None, self._last_outcome is old(self._last_outcome))'
+  lo_inv = 'self._last_outcome is None or self._last_outcome.is_terminal'
+
+  c = reg.contract(TE, 'TestExecutor._execute_phase', props=['C01', 'C02'])
+  c.param('phase', 'ref:PhaseDescriptor').param('subtest_rec', 'opt:ref:SubtestRecord').param('in_teardown', 'bool')
+  c.returns('enum:' + ER)
+  c.requires('running', live).requires('remembered_outcome_is_terminal', lo_inv)
+  c.ensures('remembered_outcome_is_terminal', lo_inv)
+  c.ensures('first_terminal_event_decides', keeps_first)
+  c.ensures('terminal_result_is_remembered', 'implies(result is %s.TERMINAL, %s)' % (ER, term))
+  c.ensures('continue_sets_no_outcome', 'implies(result is %s.CONTINUE and old(self._last_outcome) is None, self._last_outcome is None)' % ER)
+  c.ensures('fail_subtest_marks_the_subtest_only',
+            'implies(subtest_rec is not None and old(subtest_rec.outcome) is not subtest_rec.outcome, '
+            'subtest_rec.outcome is test_record.SubtestOutcome.FAIL)')
+  c.modifies('self._last_outcome', 'self._last_execution_unit', 'subtest_rec.outcome', 'list(self._phase_profile_stats)',
+             'list(self.test_state.test_record.phases)', 'self.test_state.running_phase_state', 'self.test_state._running_test_api',
+             'self._phase_exec._current_phase_thread', 'PhaseRecord.outcome', 'PhaseRecord.result', 'PhaseRecord.marginal',
+             'PhaseRecord.end_time_millis', 'PhaseRecord.start_time_millis', 'PhaseRecord.options', 'PhaseRecord.measurements',
+             'PhaseRecord.subtest_name', 'self.test_state.test_record.dut_id', 'list(self.test_state.test_record.diagnoses)',
+             'list(self.test_state.test_record.log_records)')
+
+  c = reg.contract(TE, 'TestExecutor._execute_checkpoint', props=['C01', 'C02'])
+  c.param('checkpoint', 'ref:Checkpoint').param('subtest_rec', 'opt:ref:SubtestRecord').param('in_teardown', 'bool')
+  c.returns('enum:' + ER)
+  c.requires('running', live).requires('remembered_outcome_is_terminal', lo_inv)
+  c.ensures('remembered_outcome_is_terminal', lo_inv)
+  c.ensures('first_terminal_event_decides', keeps_first)
+  c.ensures('terminal_result_is_remembered', 'implies(result is %s.TERMINAL, %s)' % (ER, term))
+  c.ensures('continue_sets_no_outcome', 'implies(result is %s.CONTINUE and old(self._last_outcome) is None, self._last_outcome is None)' % ER)
+  c.modifies('self._last_outcome', 'self._last_execution_unit', 'subtest_rec.outcome', 'list(self.test_state.test_record.checkpoints)')
+
+  # ---------------------------------------------------------------- the ladder: abort > terminal outcome > aggregation
+  c = reg.contract(TE, 'TestExecutor._execute_test_teardown', props=['C01', 'C04'])
+  c.option(symbolic_types=True)
+  ts = 'self.test_state'
+  c.requires('running', 'self.test_state is not None')
+  c.requires('not_finalized', 'not (%s._status is test_state.TestState.Status.COMPLETED)' % ts)
+  c.requires('records_have_outcomes', 'all(p.outcome is not None for p in %s.test_record.phases)' % ts)
+  out = ts + '.test_record.outcome'
+  TO = 'test_record.Outcome'
+  c.ensures('finalized', '%s._status is test_state.TestState.Status.COMPLETED' % ts)
+  c.ensures('abort_wins', 'implies(old(self._abort.is_set()), %s is %s.ABORTED)' % (out, TO))
+  c.ensures('terminal_outcome_never_passes',
+            'implies(not old(self._abort.is_set()) and %s, %s is not %s.PASS and %s is not %s.ABORTED)' % (term, out, TO, out, TO))
+  c.ensures('timeout', 'implies(not old(self._abort.is_set()) and %s and self._last_outcome.phase_result is None, %s is %s.TIMEOUT)' % (term, out, TO))
+  c.ensures('stop', 'implies(not old(self._abort.is_set()) and %s and self._last_outcome.phase_result is phase_descriptor.PhaseResult.STOP, %s is %s.FAIL)' % (term, out, TO))
+  any_fail = 'any(p.outcome is test_record.PhaseOutcome.FAIL for p in %s.test_record.phases)' % ts
+  all_skip = 'all(p.outcome is test_record.PhaseOutcome.SKIP for p in %s.test_record.phases)' % ts
+  fail_diag = 'any(d.is_failure for d in %s.test_record.diagnoses)' % ts
+  fail_sub = 'any(s.outcome is test_record.SubtestOutcome.FAIL for s in %s.test_record.subtests)' % ts
+  c.ensures('pass_only_by_aggregation',
+            'implies(%s is %s.PASS, not old(self._abort.is_set()) and not (%s) and (len(%s.test_record.phases) == 0 or '
+            '(not %s and not %s and not %s and not %s)))' % (out, TO, term, ts, any_fail, all_skip, fail_diag, fail_sub))
+  c.modifies('TestState._status', 'TestRecord.outcome', 'TestRecord.start_time_millis', 'TestRecord.end_time_millis',
+             'TestRecord.marginal', 'list(self.test_state.test_record.outcome_details)',
+             'PlugManager._plugs_by_type', 'PlugManager._plugs_by_name', 'dict')
